@@ -1,7 +1,7 @@
 (* Extraction of the executable model to OCaml.  ExtrOcamlBasic only:
    N, positive, Z, nat and byte stay Coq inductives.  Run coqc from the
    directory that is to receive model.ml. *)
-From MQ Require Import Model.Render Spec.Mqtt5 Spec.Glue.
+From MQ Require Import Model.Render Model.Fill Spec.Mqtt5 Spec.Glue.
 From Coq Require Import ZArith.
 Require Extraction.
 Require Import ExtrOcamlBasic.
@@ -10,7 +10,7 @@ Extraction "model.ml"
   b2n n2b N.add N.mul N.div_eucl N.of_nat N.to_nat N.eqb N.ltb Z.of_N Z.opp Z.to_N
   Byte.of_N Byte.to_N
   enc_vb dec_vb width encode decode dec_userprop width_userprop
-  vb_stream read_packet write_to run_calls step ctor snapshot wellformed
+  vb_stream read_packet write_to write_to2 wfill wfill_prop fill_userprop fill_userprop_prop pfill_pkt run_calls step ctor snapshot wellformed
   encode_pkt unmarshal unmarshal_steps kind_of_nibble kind_nibble applicable zero_pkt
   read_full one string_toks dump_toks first_byte_string connect_flags_string
   connack_flags_string filter_string reason_toks stars
